@@ -2,7 +2,9 @@
 
 Model: lean/PV/Model/Packet.lean (as C01, the wire being an arbitrary byte string); theorems: lean/PV/Props/C02.lean;
 driver: lean/Driver/C02.lean.
-Correspondence: toy primitives inside the REAL Packetizer; toy streams of several packets are edited (every single-byte
+Correspondence: toy primitives inside the REAL Packetizer (toy MAC = HMAC over a toy digest class, computed by the real
+code through Python's hmac module); toy streams over TWO key epochs (fresh cipher and MAC keys, strict-kex sequence reset;
+the sender's wire bytes in both epochs are compared with the model) are edited (every single-byte
 flip / deletion / insertion over the first two packets, packet swaps, drops, replays, truncations, random multi-edits)
 and fed to the real receiver and to the model: delivered (cmd, payload, seqno) lines and the error kind that ends the
 run must agree.
@@ -64,31 +66,66 @@ def is_prefix(got, sent):
 
 
 # ---------------------------------------------------------------------------------------------- toy correspondence
+def edits_cross_epoch(stream, bounds, n1, rng):
+    """packets recorded in the first key epoch put where the second epoch's packets are expected (with a strict-kex
+    sequence reset the same (position, seqno) recurs): substitution and replay-in-place"""
+    pk = [stream[bounds[i]:bounds[i + 1]] for i in range(len(bounds) - 1)]
+    n2 = len(pk) - n1
+    for i in range(min(n1, n2)):
+        yield ("epoch-substitute", i), b"".join(pk[:n1 + i] + [pk[i]] + pk[n1 + i + 1:])
+        yield ("epoch-replay", i), b"".join(pk[:n1 + i] + [pk[i]] + pk[n1 + i:])
+    if n2:
+        yield ("epoch-substitute-all", 0), b"".join(pk[:n1] + pk[:n2])
+
+
 def toy_stream(rng, pair, Message):
-    """a fresh toy sender: configuration + a few packets; -> (setup request lines for the receiver, stream, bounds)"""
-    c = gen_cfg(rng)
-    while c["kind"] == "plain":
+    """a fresh toy sender over TWO key epochs (different cipher and MAC keys, sequence reset as under strict kex):
+    -> (sender request lines with the real replies, per-epoch receiver setup lines + message counts, stream, bounds, sent)"""
+    def cfg():
         c = gen_cfg(rng)
-    if c["kind"] == "classic" and rng.random() < 0.9:
-        c["maclen"] = max(c["maclen"], 1)
-    tok = cfg_tok(c)
-    pair.cfgs = {tok: c}
-    seq = rng.choice([0, 7, 0xFFFFFFFE, 0xFE, 0xFFFE, 0xFFFFFE, 0x7FFFFFFE, rng.randrange(1 << 32)])
+        while c["kind"] == "plain":
+            c = gen_cfg(rng)
+        if c["kind"] == "classic" and rng.random() < 0.9:
+            c["maclen"] = max(c["maclen"], 1)
+        return c
+
+    c1 = cfg()
+    c2 = cfg()
+    if rng.random() < 0.6:  # same algorithms, fresh keys (the usual rekey)
+        c2 = dict(c1, k=(c1["k"] + 1 + rng.randrange(255)) % 256, pos=0, mkey=rng.randbytes(len(c1["mkey"])),
+                  iv=rng.randbytes(12))
+    t1, t2 = cfg_tok(c1), cfg_tok(c2)
+    pair.cfgs = {t1: c1, t2: c2}
+    seq = rng.choice([0, 0, 7, 0xFFFFFFFE, 0xFE, 0xFFFE, 0xFFFFFE, 0x7FFFFFFE, rng.randrange(1 << 32)])
     z = rng.choice([None, None, rng.randrange(300)])
-    setup_out = ["reset", "cfgout " + tok, "seqout %d" % seq, "kexout 1"] + (["zout %d" % z] if z is not None else [])
-    setup_in = ["reset", "cfgin " + tok, "seqin %d" % seq, "kexin 1"] + (["zin %d" % z] if z is not None else [])
-    for rq in setup_out:
-        pair.do(rq)
-    stream, bounds, sent = b"", [0], []
-    for i in range(rng.randrange(3, 6)):
-        payload = rng.randbytes(rng.choice([1, 3, c["block"] - 5, c["block"], rng.randrange(1, 40)]))
-        out = pair.do("send %s %s" % (hx(payload), hx(rng.randbytes(4))))
-        if out.startswith("err:"):
-            break
-        stream += bytes.fromhex(out)
-        bounds.append(len(stream))
-        sent.append((payload[0], payload[1:], (seq + i) % (1 << 32)))
-    return setup_out, setup_in, stream, bounds, sent, c
+    seq2 = 0 if rng.random() < 0.8 else None  # strict kex: reset at NEWKEYS
+    out_lines = ["reset", "cfgout " + t1, "seqout %d" % seq, "kexout 1"] + (["zout %d" % z] if z is not None else [])
+    in1 = ["reset", "cfgin " + t1, "seqin %d" % seq, "kexin 1"] + (["zin %d" % z] if z is not None else [])
+    in2 = ["cfgin " + t2] + (["seqin 0"] if seq2 == 0 else [])
+    sender = [(rq, pair.do(rq)) for rq in out_lines]
+    stream, bounds, sent, counts = b"", [0], [], []
+    cur = seq
+    for ep, c in enumerate((c1, c2)):
+        if ep == 1:
+            for rq in ["cfgout " + t2] + (["seqout 0"] if seq2 == 0 else []):
+                sender.append((rq, pair.do(rq)))
+            if seq2 == 0:
+                cur = 0
+        n = 0
+        for i in range(rng.randrange(2, 5)):
+            payload = rng.randbytes(rng.choice([1, 3, c["block"] - 5, c["block"], rng.randrange(1, 40)]))
+            rq = "send %s %s" % (hx(payload), hx(rng.randbytes(4)))
+            out = pair.do(rq)
+            sender.append((rq, out))
+            if out.startswith("err:"):
+                return sender, None, None, None, None, None, (c1, c2)
+            stream += bytes.fromhex(out)
+            bounds.append(len(stream))
+            sent.append((payload[0], payload[1:], cur))
+            cur = (cur + 1) % (1 << 32)
+            n += 1
+        counts.append(n)
+    return sender, [(in1, counts[0]), (in2, counts[1])], stream, bounds, sent, counts[0], (c1, c2)
 
 
 def run_toy(ctx, Packetizer, Message, n_streams, exhaustive_streams):
@@ -97,10 +134,19 @@ def run_toy(ctx, Packetizer, Message, n_streams, exhaustive_streams):
     lines, impl, trial_of = [], [], []
     trials = []
     for si in range(n_streams):
-        setup_out, setup_in, stream, bounds, sent, c = toy_stream(rng, pair, Message)
-        if len(bounds) < 3:
+        sender, epochs, stream, bounds, sent, n1, (c1, c2) = toy_stream(rng, pair, Message)
+        ti = len(trials)
+        trials.append({"kind": "sender", "edit": ("sender", si), "sent": [], "got": [], "stop": None,
+                       "cfg": cfg_tok(c1) + " -> " + cfg_tok(c2), "stream": "", "edited": ""})
+        for rq, out in sender:  # the sender's wire bytes in both epochs are part of the correspondence
+            lines.append(rq)
+            impl.append(out)
+            trial_of.append(ti)
+        if epochs is None:
+            ctx.dist("toy:sender-error")
             continue
-        eds = list(edits_structural(stream, bounds, rng, 6))
+        eds = list(edits_structural(stream, bounds, rng, 6)) + list(edits_cross_epoch(stream, bounds, n1, rng))
+        eds.append((("untouched", 0), stream))
         if si < exhaustive_streams:
             eds += list(edits_exhaustive(stream, bounds, rng))
         else:
@@ -108,28 +154,35 @@ def run_toy(ctx, Packetizer, Message, n_streams, exhaustive_streams):
         for what, edited in eds:
             ti = len(trials)
             got = []
-            reqs = list(setup_in) + ["feed " + hx(edited)]
-            for rq in reqs:
-                out = pair.do(rq)
-                lines.append(rq)
-                impl.append(out)
-                trial_of.append(ti)
             stop = None
-            for _ in range(len(sent) + 2):
-                sc = gen_sched(rng, 32) if rng.random() < 0.3 else []
-                rq = "read " + L.sched_tok(sc)
+
+            def emit(rq):
                 out = pair.do(rq)
                 lines.append(rq)
                 impl.append(out)
                 trial_of.append(ti)
-                if out.startswith("err:"):
-                    stop = out[4:]
+                return out
+
+            for ei, (setup, n) in enumerate(epochs):
+                for rq in setup:
+                    emit(rq)
+                if ei == 0:
+                    emit("feed " + hx(edited))
+                for _ in range(n + (2 if ei == len(epochs) - 1 else 0)):
+                    sc = gen_sched(rng, 32) if rng.random() < 0.3 else []
+                    out = emit("read " + L.sched_tok(sc))
+                    if out.startswith("err:"):
+                        stop = out[4:]
+                        break
+                    w = out.split(" ")
+                    got.append((int(w[1]), bytes.fromhex(w[2]) if w[2] != "-" else b"", int(w[3])))
+                if stop:
                     break
-                w = out.split(" ")
-                got.append((int(w[1]), bytes.fromhex(w[2]) if w[2] != "-" else b"", int(w[3])))
-            trials.append({"kind": c["kind"], "edit": what, "sent": sent, "got": got, "stop": stop,
-                           "cfg": cfg_tok(c), "stream": stream.hex(), "edited": edited.hex()})
+            trials.append({"kind": c1["kind"] + "->" + c2["kind"], "edit": what, "sent": sent, "got": got, "stop": stop,
+                           "cfg": cfg_tok(c1) + " -> " + cfg_tok(c2), "stream": stream.hex(), "edited": edited.hex()})
             ctx.dist("toy:%s:%s" % (what[0], stop))
+            if what[0] == "untouched" and got != sent:
+                ctx.dist("toy:untouched-stream-not-delivered")
     return lines, impl, trial_of, trials
 
 
@@ -157,7 +210,7 @@ def replay_real(Packetizer, rng, c, m, comp, salt, seq, data, max_reads):
     pr = Packetizer(sock)
     sock.pk = pr
     pr._initial_kex_done = True
-    L.stub_transport(pr, c, m, comp, server=True, salt=salt)._activate_inbound()
+    L.activate_in(pr, c, m, comp, salt=salt)
     L.set_seq(pr, inn=seq)
     got, stop = [], None
     for _ in range(max_reads):
@@ -168,6 +221,79 @@ def replay_real(Packetizer, rng, c, m, comp, salt, seq, data, max_reads):
             break
         got.append((cmd, msg.asbytes(), msg.seqno))
     return got, stop
+
+
+def record_epochs(Packetizer, Message, rng, eps, seq0):
+    """one sender Packetizer through several key epochs; eps = [(cipher, mac, comp, salt, nmsgs)]; every epoch after the
+    first starts with a strict-kex sequence reset"""
+    sock = L.SinkSock()
+    ps = Packetizer(sock)
+    ps._initial_kex_done = True
+    stream, bounds, sent = b"", [0], []
+    seq = seq0
+    for ei, (c, m, comp, salt, n) in enumerate(eps):
+        L.activate_out(ps, c, m, comp, salt=salt, strict=ei > 0)
+        if ei == 0:
+            L.set_seq(ps, out=seq0)
+        else:
+            seq = 0
+        b = L.REF_CIPHER.get(c, (0, 0, 0, 16))[3]
+        for i in range(n):
+            payload = rng.randbytes(rng.choice([1, 2, b - 5, b, rng.randrange(1, 3 * b)]))
+            ps.send_message(Message(payload))
+            stream += sock.take()
+            bounds.append(len(stream))
+            sent.append((payload[0], payload[1:], seq))
+            seq = (seq + 1) % (1 << 32)
+    return stream, bounds, sent
+
+
+def replay_epochs(Packetizer, rng, eps, seq0, data, extra_reads=2):
+    sock = L.FragSock(data, [rng.choice([1, 3, 8, 64, 0, "r"]) for _ in range(rng.randrange(0, 4))])
+    pr = Packetizer(sock)
+    sock.pk = pr
+    pr._initial_kex_done = True
+    got, stop = [], None
+    for ei, (c, m, comp, salt, n) in enumerate(eps):
+        L.activate_in(pr, c, m, comp, salt=salt, strict=ei > 0)
+        if ei == 0:
+            L.set_seq(pr, inn=seq0)
+        for _ in range(n + (extra_reads if ei == len(eps) - 1 else 0)):
+            try:
+                cmd, msg, _ = L.read_message_retrying(pr)
+            except Exception as e:
+                stop = L.classify(e)
+                break
+            got.append((cmd, msg.asbytes(), msg.seqno))
+        if stop:
+            break
+    return got, stop
+
+
+def cross_epoch_oracle(ctx, Packetizer, Message, c, m, c2, m2, comp, salt):
+    """a rekey on the same Packetizers with a strict-kex sequence reset: packets of the first epoch substituted for /
+    replayed at the same (position, seqno) in the second epoch must not verify (new MAC key, new cipher key, new IV)"""
+    rng = ctx.rng
+    eps = [(c, m, comp, salt, 4), (c2, m2, comp, salt + 7919, 4)]
+    stream, bounds, sent = record_epochs(Packetizer, Message, rng, eps, 0)
+    mode = "gcm" if "gcm" in c2 else "etm" if "etm" in m2 else "classic"
+    got, stop = replay_epochs(Packetizer, rng, eps, 0, stream)
+    case0 = {"epochs": [[c, m], [c2, m2]], "compression": comp, "salt": salt, "strict_seq_reset": True}
+    if got != sent:
+        ctx.fail("untampered-stream-not-delivered", case0, "two key epochs; delivered %d of %d, stop=%s" % (len(got), len(sent), stop))
+        return
+    for what, edited in list(edits_cross_epoch(stream, bounds, 4, rng)) + [
+            (("swap-across-rekey", 3), stream[:bounds[3]] + stream[bounds[4]:bounds[5]] + stream[bounds[3]:bounds[4]] + stream[bounds[5]:])]:
+        got, stop = replay_epochs(Packetizer, rng, eps, 0, edited)
+        ctx.case((c, m, c2, m2, what), True)
+        ctx.dist("oracle-rekey:%s:%s:%s" % (mode, what[0], "delivered-all" if len(got) >= len(sent) else stop))
+        if not is_prefix(got, sent):
+            k = next(i for i, g in enumerate(got) if i >= len(sent) or g != sent[i])
+            ctx.fail("accepted-altered:%s:%s" % (mode, what[0]),
+                     dict(case0, edit=list(what), stream=stream.hex(), edited=edited.hex()),
+                     "delivered %d messages; message %d (second key epoch) is not the one sent (got %r)" % (len(got), k, got[k][:2]))
+        elif stop is None and len(got) < len(sent):
+            ctx.fail("no-failure-after-prefix:%s" % mode, dict(case0, edit=list(what)), "receiver neither failed nor waited")
 
 
 def long_stream_oracle(ctx, Packetizer, Message, c, m, salt, dists):
@@ -221,7 +347,8 @@ def run(ctx):
                 "the first two packets, all adjacent packet swaps, drops, replays (in place and at the end), truncations at "
                 "and between packet boundaries, random 2-5-fold multi-edits, late flips; toy streams are replayed through "
                 "the real receiver and the model (correspondence), real-cipher streams through a fresh real receiver "
-                "(oracle). distinct = distinct (suite|config, edit kind, position); non-trivial = the edited stream "
+                "(oracle), including streams that span a rekey with a strict-kex sequence reset where first-epoch packets are "
+                "substituted for / replayed at the same (position, seqno) in the second epoch. distinct = distinct (suite|config, edit kind, position); non-trivial = the edited stream "
                 "differs from the recorded one")
     ctx.trust("pv/lib_packet.py toy primitives; stub Transport around the real _activate_inbound/_activate_outbound",
               "cryptography / hashlib / zlib for the oracle streams")
@@ -300,6 +427,14 @@ def run(ctx):
         if si < 2:
             ctx.sample({"oracle-stream": {"cipher": c, "mac": m, "compression": comp, "packets": len(sent),
                                           "bytes": len(stream), "edits": len(eds)}})
+    # ------------------------------------------------------------------ oracle: edits across a rekey (strict seq reset)
+    for ri, (c, m) in enumerate(suites if ctx.thorough else reps):
+        others = [(c, m)] + ([rng.choice([x for x in suites if ("etm" in x[1]) == ("etm" in m)])] if ri % 3 == 0 else [])
+        for c2, m2 in others:
+            try:
+                cross_epoch_oracle(ctx, Packetizer, Message, c, m, c2, m2, "zlib" if ri % 5 == 2 else "none", 7000 + ri)
+            except Exception as e:
+                ctx.fail("cross-epoch:" + exc_site(e), {"cipher": c, "mac": m}, repr(e))
     # ------------------------------------------------------------------ oracle: long streams under one key set
     pick = lambda f: next(x for x in suites if f(x))  # noqa: E731
     long_suites = [pick(lambda x: "ctr" in x[0] and "etm" in x[1]), pick(lambda x: "cbc" in x[0] and "aes" in x[0] and "etm" in x[1]),
